@@ -5,6 +5,7 @@ import (
 	"fmt"
 	"io"
 	"os"
+	"path/filepath"
 	"runtime"
 	"sort"
 	"strconv"
@@ -60,6 +61,7 @@ type G struct {
 	lastPoint string
 	prio      int
 	steps     int
+	undo      func() // reverts a temporary file-system condition set up for this goroutine's current step
 }
 
 type Proc struct {
@@ -403,6 +405,12 @@ func (k *Kernel) accept(a *arrival) {
 		p.res.EndStep = p.endStep
 		p.res.EndTime = k.Now()
 		k.logf("done p%d exit=%d err=%s t=%v", p.idx, p.res.ExitCode, k.Norm(p.res.ErrText), k.Now())
+		for _, og := range k.glist {
+			if og.proc == p && og.undo != nil {
+				og.undo()
+				og.undo = nil
+			}
+		}
 		return
 	}
 	if g == nil {
@@ -424,6 +432,10 @@ func (k *Kernel) accept(a *arrival) {
 		k.gs[a.goid] = g
 		k.glist = append(k.glist, g)
 		k.Stats.Goroutines++
+	}
+	if g.undo != nil {
+		g.undo()
+		g.undo = nil
 	}
 	g.cur = a
 	g.proc.yields++
@@ -477,6 +489,17 @@ func (k *Kernel) resume(g *G) {
 		for i := range k.sc.Faults {
 			f := &k.sc.Faults[i]
 			if f.Proc == p.idx && f.Point == a.point && (f.Nth == n || (f.Persistent && f.Nth <= n)) {
+				if f.Mode == "env" {
+					// make the real call fail by a real file-system condition that only
+					// this goroutine can observe (everyone else is parked until it is undone)
+					if undo := envFault(a.point, a.arg); undo != nil {
+						g.undo = undo
+						k.logf("envfault p%d %s#%d", p.idx, a.point, n)
+						k.Stats.fault("fs-env:" + a.point)
+						k.Stats.probe("fault@" + a.point)
+						continue
+					}
+				}
 				r.err = &os.PathError{Op: "simfault", Path: k.Norm(a.arg), Err: vhook.ErrnoByName(f.Errno)}
 				k.logf("fault p%d %s#%d %s", p.idx, a.point, n, f.Errno)
 				k.Stats.fault("fs:" + f.Errno)
@@ -678,3 +701,40 @@ func (b *bufCloser) Close() error { return nil }
 
 var _ = strconv.Itoa
 var _ = syscall.EIO
+
+func ctlPath(path, suffix string) string {
+	return filepath.Join(filepath.Dir(path), "."+filepath.Base(path)+suffix)
+}
+
+// envFault sets up a real condition under which the file-system call that
+// follows the named step fails, and returns the function that removes it.
+func envFault(point, path string) func() {
+	exists := func(p string) bool { _, err := os.Lstat(p); return err == nil }
+	block := func(p string) func() {
+		if exists(p) {
+			return nil
+		}
+		if err := os.WriteFile(p, nil, 0600); err != nil {
+			return nil
+		}
+		return func() { _ = os.Remove(p) }
+	}
+	switch point {
+	case "cf.lock.create", "cf.rlock.createlock":
+		return block(ctlPath(path, ".lock"))
+	case "cf.temp.create":
+		return block(ctlPath(path, ".temp"))
+	case "h.create.file":
+		return block(path)
+	case "h.open.read", "h.open.update":
+		hidden := path + ".hidden~"
+		if !exists(path) || exists(hidden) {
+			return nil
+		}
+		if err := os.Rename(path, hidden); err != nil {
+			return nil
+		}
+		return func() { _ = os.Rename(hidden, path) }
+	}
+	return nil
+}
